@@ -400,3 +400,42 @@ Section Model.
     holds_range (pcs s t) = Some (a, b) -> holds_range (pcs s t') = Some (a', b') -> b <= a' \/ b' <= a.
   Proof. intros Hr. destruct (inv_reachable s Hr) as (_ & _ & H). apply H. Qed.
 End Model.
+
+(* ---------------------------------------------------------------- examples *)
+(* a concrete reachable state in which a reader finished a read that went through a miss, a
+   granted range lock, a source read, the copy, an inline write-back and the remainder check *)
+Definition ex_src : bytes := fun x => x * 3 + 1.
+
+Example ex_reachable_done :
+  exists s u, reachable ex_src s /\ pcs s 0%nat = RDone 0 4 u /\ filled s 2 = true.
+Proof.
+  pose (s0 := mkS (fun _ => false) (fun _ => 0) (fun _ => Idle)).
+  assert (R0 : reachable ex_src s0) by apply r_init.
+  assert (Hin : forall x, (0 <=? x) && (x <? 4) = true -> inr 0 4 x).
+  { intros x Hx. apply andb_true_iff in Hx. destruct Hx as [H1 H2]. apply Z.leb_le in H1. apply Z.ltb_lt in H2. unfold inr. lia. }
+  match type of R0 with reachable _ ?s =>
+    pose proof (r_step _ s _ R0 (s_start ex_src s 0%nat 0 4 eq_refl ltac:(lia) ltac:(lia))) as R1 end.
+  match type of R1 with reachable _ ?s =>
+    pose proof (r_step _ s _ R1 (s_rlock ex_src s 0%nat 0 4 eq_refl)) as R2 end.
+  match type of R2 with reachable _ ?s =>
+    pose proof (r_step _ s _ R2 (s_query_miss ex_src s 0%nat 0 4 0 4 eq_refl ltac:(lia) ltac:(intros x Hx _; exact Hx))) as R3 end.
+  match type of R3 with reachable _ ?s =>
+    pose proof (r_step _ s _ R3 (s_range_lock ex_src s 0%nat 0 4 0 4 eq_refl
+                ltac:(intros t' a' b' Hne H; destruct t'; [congruence | discriminate]))) as R4 end.
+  match type of R4 with reachable _ ?s =>
+    pose proof (r_step _ s _ R4 (s_src_read ex_src s 0%nat 0 4 0 4 ex_src eq_refl ltac:(intros; reflexivity))) as R5 end.
+  match type of R5 with reachable _ ?s =>
+    pose proof (r_step _ s _ R5 (s_copy ex_src s 0%nat 0 4 0 4 ex_src (fun x => (0 <=? x) && (x <? 4)) eq_refl
+                ltac:(intros x Hx; split; apply Hin; exact Hx))) as R6 end.
+  match type of R6 with reachable _ ?s =>
+    pose proof (r_step _ s _ R6 (s_inline ex_src s 0%nat 0 4 0 4 ex_src _ eq_refl)) as R7 end.
+  match type of R7 with reachable _ ?s =>
+    pose proof (r_step _ s _ R7 (s_inline_write ex_src s 0%nat 0 4 0 4 ex_src _ (fun x => (0 <=? x) && (x <? 4)) _ eq_refl
+                (conj Hin eq_refl))) as R8 end.
+  match type of R8 with reachable _ ?s =>
+    pose proof (r_step _ s _ R8 (s_rem_done ex_src s 0%nat 0 4 _ eq_refl
+                ltac:(intros x Hx; unfold inr in Hx; cbn beta;
+                      replace ((0 <=? x) && (x <? 4)) with true by (symmetry; apply andb_true_iff; split; [apply Z.leb_le | apply Z.ltb_lt]; lia);
+                      discriminate))) as R9 end.
+  eexists. eexists. split; [exact R9 |]. split; reflexivity.
+Qed.
